@@ -19,7 +19,7 @@ var rec = vev.For("C07")
 
 func TestMain(m *testing.M) {
 	rec.SetRule("(vCard list, query) pairs: complete products of outer test x inner test x match type x negate x is-not-defined x presence x texts on a small alphabet (one filter with 0-2 text matches; two filters with 0-1), limits -1..len+1 with matches at start/middle/end, projections over all subsets of a 4-property card, plus rapid-generated larger cards/queries; non-trivial = a text match is evaluated against a present property, or the limit cuts the result, or a projection removes a property; distinct by canonical JSON of the case")
-	rec.Assume("property names are upper case in both card and query (go-vcard keys)", "cards are non-empty (VERSION and FN present) when a projection is requested", "verdicts that depend on parameter filters or on which instance of a repeated property is examined are don't-care (counted as either)")
+	rec.Assume("property names are upper case in cards and filters (go-vcard keys); requested names of a projection also come in lower and mixed case, where either reading of the name is accepted", "cards are non-empty (VERSION and FN present) when a projection is requested", "verdicts that depend on parameter filters or on which instance of a repeated property is examined are don't-care (counted as either)")
 	vev.Main(m)
 }
 
@@ -169,8 +169,14 @@ func evaluate(c Case) (o vev.Outcome) {
 			if out[k].ETag != in.ETag || !out[k].ModTime.Equal(in.ModTime) {
 				return vev.Outcome{Sig: vev.Sig("filter", "metadata"), Msg: fmt.Sprintf("Filter(%s): result %d lost tag/date: %q %v vs %q %v", mustJSON(c), k, out[k].ETag, out[k].ModTime, in.ETag, in.ModTime)}
 			}
-			wantF := sorted(Project(c.Q, c.Cards[idx]))
+			wantF := sorted(Project(c.Q, c.Cards[idx], false))
 			gotF := flat(out[k].Card)
+			if wantU := sorted(Project(c.Q, c.Cards[idx], true)); !reflect.DeepEqual(wantF, wantU) {
+				rec.Count("projection:name-not-upper-case(either reading)", 1)
+				if reflect.DeepEqual(wantU, gotF) {
+					wantF = wantU
+				}
+			}
 			if !reflect.DeepEqual(wantF, gotF) && !(len(wantF) == 0 && len(gotF) == 0) {
 				return vev.Outcome{Sig: vev.Sig("filter", "projection"), Msg: fmt.Sprintf("Filter(%s): result %d has fields %v, want %v", mustJSON(c), k, gotF, wantF)}
 			}
@@ -219,7 +225,7 @@ func nontrivial(c Case) bool {
 				return true
 			}
 			for _, i := range sel {
-				if len(Project(c.Q, c.Cards[i])) < len(c.Cards[i].Fields) {
+				if len(Project(c.Q, c.Cards[i], false)) < len(c.Cards[i].Fields) {
 					return true
 				}
 			}
@@ -408,6 +414,16 @@ func TestEnumerateLimitProjection(t *testing.T) {
 					cards := []Card{{Path: "/c/0", ETag: "e0", Fields: fields}, {Path: "/c/1", ETag: "e1", Fields: []Fld{{"VERSION", "3.0"}, {"FN", "other"}}}}
 					c := Case{Mode: "filter", Q: Q{Nil: nilq, Test: "anyof", Props: props, AllProp: all, PFs: []PF{{Name: "FN"}}}, Cards: cards}
 					run(t, nil, c, "E3/projection")
+					// the same request with the names spelled in lower and in mixed case (after C07-s12): which
+					// properties such a name selects is open, that the caller's query stays as it was is not
+					for _, sp := range []func(string) string{strings.ToLower, func(s string) string { return s[:1] + strings.ToLower(s[1:]) }} {
+						var alt []string
+						for _, n := range props {
+							alt = append(alt, sp(n))
+						}
+						c.Q.Props = alt
+						run(t, nil, c, "E3/projection-case")
+					}
 				}
 			}
 		}
@@ -540,7 +556,7 @@ func TestRandom(t *testing.T) {
 			}
 			c.Q.Limit = rapid.IntRange(-1, n+1).Draw(rt, "limit")
 			if rapid.Bool().Draw(rt, "project") {
-				c.Q.Props = rapid.SliceOfN(rapid.SampledFrom(append([]string{"VERSION", "UID"}, names...)), 0, 4).Draw(rt, "props")
+				c.Q.Props = rapid.SliceOfN(rapid.SampledFrom(append([]string{"VERSION", "UID", "email", "Fn", "tEL", "version", "x-a"}, names...)), 0, 4).Draw(rt, "props")
 				c.Q.AllProp = rapid.IntRange(0, 3).Draw(rt, "allprop") == 0
 			}
 			if rapid.IntRange(0, 19).Draw(rt, "nilq") == 0 {
